@@ -94,6 +94,7 @@ type Sim struct {
 	kick      chan struct{}
 	last      *Task
 	shutdown  atomic.Bool
+	frozen    atomic.Bool // Freeze was called: a goroutine reaching a hook blocks for good
 	abandoned atomic.Bool // Run ended in a deadlock: Shutdown and Drain leave the parked tasks alone
 	rootGid   uint64      // the goroutine that created the Sim and runs the scheduler: it never parks
 	hash      uint64
@@ -231,12 +232,15 @@ func (s *Sim) park(t *Task, point string, guard func() bool) {
 
 // Yield implements verifhook.Handler and is also called by harness code.
 func (s *Sim) Yield(point string, guard func() bool) {
-	if s.shutdown.Load() {
-		return
-	}
 	g := gid()
 	if g == s.rootGid {
 		return // set-up and clean-up code run by the scheduler's own goroutine
+	}
+	if s.frozen.Load() {
+		select {} // a durable block: the bubble can end although this goroutine never will
+	}
+	if s.shutdown.Load() {
+		return
 	}
 	s.mu.Lock()
 	t := s.byGid[g]
@@ -575,6 +579,12 @@ func (s *Sim) Shutdown() {
 	}
 	s.mu.Unlock()
 }
+
+// Freeze makes every goroutine that reaches a hook from now on block for good. It is for runs
+// that started goroutines of /repo which loop on a ticker without any way to stop them
+// (fbserver.Server.LogMapAge, DumpBackendStats): they would keep the bubble's clock running for
+// ever. Call it after the run has been judged.
+func (s *Sim) Freeze() { s.frozen.Store(true) }
 
 // Drain waits (in fake time) for leftover goroutines after Shutdown.
 func (s *Sim) Drain(rounds int, step time.Duration) {
